@@ -1,6 +1,7 @@
 ---------------------------- MODULE PbfGenWalk ----------------------------
 EXTENDS PbfGen
-ASSUME ndJsonSerialize(IOEnv.OUT, <<[configs |-> SetToSeq(WalkConfigs), stop |-> SetToSeq(StopScripts), plain |-> SetToSeq(PlainScripts)]>>)
+ASSUME ndJsonSerialize(IOEnv.OUT, <<[configs |-> SetToSeq(WalkConfigs), stop |-> SetToSeq(StopScripts), plain |-> SetToSeq(PlainScripts),
+                                           jitter |-> SetToSeq(JitterConfigs)]>>)
 JInitG == /\ cfg = 0 /\ started = 0 /\ cancelled = 0 /\ parentCancelled = 0 /\ rpc = 0 /\ ri = 0 /\ rpos = 0 /\ rerr = 0 /\ rpair = 0
           /\ readsAfterStop = 0 /\ inq = 0 /\ inClosed = 0 /\ wpc = 0 /\ wcur = 0 /\ outq = 0 /\ outClosed = 0 /\ spc = 0 /\ sj = 0
           /\ scur = 0 /\ tErr = 0 /\ serq = 0 /\ serClosed = 0 /\ cpc = 0 /\ cData = 0 /\ cIndex = 0 /\ pOff = 0 /\ cOff = 0 /\ sErr = 0
